@@ -126,9 +126,30 @@ def _instance(address, byte):
     return address.InstanceBroadcast()
 
 
+class _Flag:
+    """An object with a truth value (a numpy/ctypes bool, a config flag ...)."""
+
+    def __init__(self, v):
+        self.v = v
+
+    def __bool__(self):
+        return self.v
+
+    def __repr__(self):
+        return "_Flag(%r)" % self.v
+
+
+TRUTHY = [1, 2, "yes", _Flag(True), 1.0, [0]]
+FALSY = [0, None, "", _Flag(False), 0.0, []]
+
+
 def construct(row, cls, args, address, variant=0):
-    """Build the library object for a legal argument tuple the way a user of the library would."""
+    """Build the library object for a legal argument tuple the way a user of the library would.
+    variant >= 2: every yes/no option is handed over as a truthy / falsy value that is not a bool (expectation: the
+    frame the standard gives for True / False - Python's truth value is what a yes/no option means)."""
     f = row.form
+    yes = TRUTHY[(variant - 2) % len(TRUTHY)] if variant >= 2 else True
+    no = FALSY[(variant - 2) % len(FALSY)] if variant >= 2 else False
     if f == "gear-std":
         d = _gear_dest(address, args["dest"])
         return cls(d, args["param"]) if row.param == "nibble" else cls(d)
@@ -140,9 +161,11 @@ def construct(row, cls, args, address, variant=0):
             return cls()
         if row.param == "initialise":
             if p == "ALL":
-                return cls(broadcast=True)
+                return cls(yes) if variant % 2 else cls(broadcast=yes)
             if p == "UNADDRESSED":
-                return cls()
+                return cls(broadcast=no) if variant >= 2 else cls()
+            if variant >= 2:
+                return cls(no, p) if variant % 2 else cls(broadcast=no, address=p)
             return cls(address=p)
         return cls(p)
     if f == "dev-std":
@@ -168,7 +191,11 @@ def construct(row, cls, args, address, variant=0):
             kw["instance_group"] = args["group"]
         info = args["info"]
         if row.param == "info-flags4":
-            if variant == 1:
+            if variant >= 2:
+                kw["data"] = cls.EventData(movement=yes if info & 1 else no, occupied=yes if info & 2 else no,
+                                           repeat=yes if info & 4 else no,
+                                           sensor_type="movement" if info & 8 else "presence")
+            elif variant == 1:
                 kw["data"] = cls.EventData(movement=bool(info & 1), occupied=bool(info & 2),
                                            repeat=bool(info & 4),
                                            sensor_type="movement" if info & 8 else "presence")
@@ -230,21 +257,27 @@ def check_frame(row, cls, args, mods):
     where = "%s %r" % (row.name, args)
     out = []
     # (a) construct -> frame
-    variants = (0, 1) if row.param == "info-flags4" else (0,)
+    variants = (0, 1, 2 + exp % 6, 2 + (exp // 6 + 3) % 6) if row.param == "info-flags4" else \
+        (0, 2, 3, 4, 5, 6, 7) if row.param == "initialise" else (0,)
     for variant in variants:
         try:
             obj = construct(row, cls, args, address, variant)
             got = obj.frame.as_integer
             bits = len(obj.frame)
         except Exception as e:  # noqa: a legal argument tuple must be accepted
-            out.append(("C03:construct-raised:%s:%s" % (name, type(e).__name__), "%s: %r" % (where, e)))
+            out.append(("C03:construct-raised:%s:%s" % (name, type(e).__name__), "%s%s: %r"
+                        % (where, " (yes/no options as %r/%r)" % (TRUTHY[(variant - 2) % 6], FALSY[(variant - 2) % 6])
+                           if variant >= 2 else "", e)))
             continue
         if bits != row.bits:
             out.append(("C03:frame-size:" + name, "%s: frame has %d bits, standard says %d" % (where, bits, row.bits)))
         elif got != exp:
             for sig in _mismatch_sigs(row, args, got, exp):
-                out.append((sig, "%s: library emits %#0*x, standard says %#0*x"
-                            % (where, row.bits // 4 + 2, got, row.bits // 4 + 2, exp)))
+                if variant >= 2:
+                    sig += ":yes-no-option-as-non-bool"
+                out.append((sig, "%s%s: library emits %#0*x, standard says %#0*x"
+                            % (where, " (yes/no options as %r/%r)" % (TRUTHY[(variant - 2) % 6], FALSY[(variant - 2) % 6])
+                               if variant >= 2 else "", row.bits // 4 + 2, got, row.bits // 4 + 2, exp)))
     # (b) reference frame -> class
     try:
         kw = {}
@@ -265,7 +298,50 @@ def check_frame(row, cls, args, mods):
             out.append(("C03:decode-name:" + name, "%s: standard frame %#0*x (devicetype %d) decodes to %s.%s"
                         % (where, row.bits // 4 + 2, exp, row.devicetype,
                            type(dec).__module__, type(dec).__name__)))
+        # (c) the command tables of parts 103/301/303/304 do not depend on an instance map: a bus watcher that hands its
+        # dev_inst_map to every decode (the option exists for device/instance EVENTS) gets the same class for a command
+        if row.bits == 24 and row.form != "event":
+            for label, m in _command_maps(row, args, exp):
+                try:
+                    d2 = command.from_frame(frame.ForwardFrame(row.bits, exp), devicetype=row.devicetype, dev_inst_map=m)
+                except Exception as e:  # noqa
+                    out.append(("C03:decode-with-map-raised:%s:%s" % (name, type(e).__name__),
+                                "%s: from_frame(%#x, dev_inst_map=<%s>) raised %r" % (where, exp, label, e)))
+                    continue
+                if type(d2) is not type(dec):
+                    out.append(("C03:decode-name-depends-on-map%s:%s" % ("" if "own part" in label or "empty" in label or "None" in label
+                                                                          else "-of-another-instance-type", name),
+                                "%s: standard frame %#08x decodes to %s without a map and to %s with dev_inst_map=<%s>"
+                                % (where, exp, type(dec).__name__, type(d2).__name__, label)))
     return out
+
+
+PART_TYPE = {"301": 1, "303": 3, "304": 4}
+
+
+def _command_maps(row, args, exp):
+    """Instance maps to decode a 24-bit COMMAND frame under: for an instance command addressed by short address +
+    instance number one that knows the instance to be of the type whose part defines the command (any type for the
+    part-103 rows), one that knows another type, an empty one - as stub and as the library's own mapper; for the
+    other frames one of them in rotation on every fourth frame."""
+    from dali.device.helpers import DeviceInstanceTypeMapper
+    own = PART_TYPE.get(row.part, [1, 3, 4, 2, 0][exp % 5])
+    other = [t for t in (1, 3, 4, 2, 0, 31) if t != own][exp % 5]
+    addressed = row.form == "dev-inst" and args["dest"][0] == "short" and T.instance_kind(args["inst"])[0] == "number"
+    if addressed:
+        key = (args["dest"][1], T.instance_kind(args["inst"])[1])
+        if exp % 2:
+            return [("stub: type %d (own part)" % own, _TypeMap(own)), ("stub: type %d" % other, _TypeMap(other)),
+                    ("empty mapper", DeviceInstanceTypeMapper())]
+        mo = DeviceInstanceTypeMapper()
+        mo.add_type(short_address=key[0], instance_number=key[1], instance_type=other)
+        return [("mapper: {%r: %d} (own part)" % (key, own), DeviceInstanceTypeMapper({key: own})),
+                ("mapper: {%r: %d}" % (key, other), mo), ("stub: None", _TypeMap(None))]
+    if (exp >> 8) % 4 != exp % 4:
+        return []
+    k = (exp >> 3) % 3
+    return [[("stub: type %d" % own, _TypeMap(own))], [("stub: type %d" % other, _TypeMap(other))],
+            [("empty mapper", DeviceInstanceTypeMapper())]][k]
 
 
 def answer_kind(command, cls):
